@@ -70,3 +70,8 @@ claim("C18", "DESIGN.md §3 C18",
       "For all configurations: every config-struct field whose string reaches a panicking or error-dropping constructor (regexp.MustCompile, Must(Raw)TemplatedRegexp, url.Parse with discarded error) — directly, through module functions forwarding a parameter, or through a struct field later fed to such a sink — is checked with the corresponding error-returning constructor in that struct's validate(); no result of an error-discarding call or of a nil-returning module wrapper is dereferenced (or handed to external code) without a nil test; every hcl-tagged struct validates its nested structs and Load/Check.Decode call the validators. Four genuine defects found by these rules were fixed in /repo.",
       SA_NOTE,
       "static analysis: parameter-to-sink summaries to a fixed point over the type-checked AST (field-mediated flows included), validator table extracted from validate() methods, dropped-error/nil dominance on go/cfg, field coverage of validate()")
+
+claim("C02", "DESIGN.md §3 C02",
+      "For all inputs: enumerable panic sources and the rule typestate. Every not-empty return of parseRule (and the helpers it returns through) carries a rule body or an error and every caller tests the isEmpty flag; regular checks are built only for error-free entries, the error check cannot be disabled, and typestate-reliant functions are called outside the checks only under an error-free/body guard; no single-value assertion on PromQL/template/YAML AST interfaces outside the idioms that establish the type; no slicing/indexing with an unchecked strings.Index result; slices.Max/Min only under a non-empty guard; optional pointers (rule bodies, for/keep_firing_for/labels/annotations, group labels, Entry.Group/File, PromQLExpr.Query) dereferenced only under a guard in the function or all callers; regexp.MustCompile only on constants, quoted text or validated config. Seven genuine crashes found by these rules were fixed. Termination and index arithmetic are NOT decided.",
+      SA_NOTE,
+      "static analysis: typestate on return sites, enumerated panic-source detectors over the type-checked AST, nil-guard dominance on go/cfg with caller inference, provenance of MustCompile arguments")
